@@ -28,6 +28,7 @@ def run_semantic(ctx, module, level, rule, flags_list, relation, origins, extra,
                 ctx.mismatches.append({"op": m.get("op"), "program": m.get("program"), "impl": str(m.get("impl"))[:500],
                                        "model": str(m.get("model"))[:500]})
             extra += [m["program"] for m in r["mismatches"][:40] if m.get("program")]
+            extra += list(r.get("extra_programs", []))[:40]
             ctx.cov["samples"].append({"correspondence": name, "evaluations": r["evaluations"], "nontrivial": r["nontrivial"]})
     for g in generators:
         extra += [g(ctx.rng) for _ in range((40 if ctx.quick() else 1500) // max(1, len(generators)))]
